@@ -489,7 +489,9 @@ def run_after_failure(cfg, acc):
 # ------------------------------------------------------------------ name space
 
 CLASS_NAMES = ['Foo', 'ext', 'ext_', 'ext_Foo', 'Ext_foo', 'EXT_', '_ext', '__ext', 'ext__', 'ext_1']
-EXPLICIT = ['a', 'ext', 'ext_', 'ext_x', 'Ext_', 'x_ext_', '_ext_x', '_ext_', '_x', '_', '__ext_x']
+EXPLICIT = ['a', 'ext', 'ext_', 'ext_x', 'Ext_', 'x_ext_', '_ext_x', '_ext_', '_x', '_', '__ext_x',
+            # blanks around a reserved-looking name (no normalisation may turn it into a reserved one)
+            ' _ext_x', '\t_ext_', ' _x', '_ext_x ', '\n_ext_y', '\u00a0_ext_z']
 
 
 def run_names(cfg, acc):
